@@ -99,6 +99,7 @@ fn main() {
         "derive_roundtrip" => derive::roundtrip(&args),
         "rpc" => rpc::run(&args),
         "timers" => timers::run(&args),
+        "timer_stopping_target" => timers::stopping_target(&args),
         "select_listen" => select::listen(&args),
         "select_rws" => select::rws(&args),
         "supervision" => supervision::run(&args),
